@@ -859,7 +859,9 @@ func (c *codecV2) DecodeKey(encodedKey []byte) ([]byte, error) {
 
 func (c *codecV2) encodeKeyRange(keyRange *kvrpcpb.KeyRange) *kvrpcpb.KeyRange {
 	encodedRange := &kvrpcpb.KeyRange{}
-	encodedRange.StartKey, encodedRange.EndKey = c.encodeRange(keyRange.StartKey, keyRange.EndKey, false)
+	// A nil range means "everything"; the getters return empty bounds for it,
+	// which encode to the whole keyspace.
+	encodedRange.StartKey, encodedRange.EndKey = c.encodeRange(keyRange.GetStartKey(), keyRange.GetEndKey(), false)
 	return encodedRange
 }
 
